@@ -19,16 +19,28 @@ def TokArg (TokP : Tok → Prop) (raw : Bytes) (t : ArgType) : Prop :=
     (((tok.kind = .string ∨ tok.kind = .multiline) ∧ t = .string) ∨ (tok.kind = .number ∧ t = .number) ∨
       (tok.kind = .tag ∧ t = .tag))
 
-/-- a recorded argument sits in a slot of the definition that admits it -/
+/-- the value set of a slot admits the text (case-insensitively), or the slot has no value set -/
+def valueIn (a : ArgDef) (raw : Bytes) : Prop :=
+  (a.values.isNone = true ∧ a.extValues.isEmpty = true) ∨ inValues a.values (B.lower raw) = true ∨
+    (extLookup a.extValues (B.lower raw)).isSome = true
+
+/-- a recorded argument sits in a slot of the definition that admits its kind and its value -/
 def ArgT (TokP : Tok → Prop) (d : CmdDef) : Arg → Prop
-  | .str k raw => ∃ a ∈ d.args, a.name = k ∧ ∃ t, TokArg TokP raw t ∧ validType t a.types = true
-  | .strs k _ => ∃ a ∈ d.args, a.name = k ∧ validType .stringlist a.types = true
+  | .str k raw => ∃ a ∈ d.args, a.name = k ∧ valueIn a raw ∧ ∃ t, TokArg TokP raw t ∧ validType t a.types = true
+  | .strs k _ => ∃ a ∈ d.args, a.name = k ∧ validType .stringlist a.types = true ∧
+      a.values.isNone = true ∧ a.extValues.isEmpty = true
   | _ => True
 
-/-- a recorded tag parameter sits under a slot whose `extra_arg` admits it -/
+/-- the value list of a tag parameter admits the text exactly, or there is none -/
+def paramIn (e : ExtraDef) (raw : Bytes) : Prop :=
+  match e.values with
+  | none => True
+  | some vs => raw ∈ vs
+
+/-- a recorded tag parameter sits under a slot whose `extra_arg` admits its kind and its value -/
 def ExtraT (TokP : Tok → Prop) (d : CmdDef) : Arg → Prop
-  | .str k raw => ∃ c ∈ d.args, c.name = k ∧ ∃ e, c.extra = some e ∧ ∃ t, TokArg TokP raw t ∧ atypeIn t e = true
-  | .strs k _ => ∃ c ∈ d.args, c.name = k ∧ ∃ e, c.extra = some e ∧ atypeIn .stringlist e = true
+  | .str k raw => ∃ c ∈ d.args, c.name = k ∧ ∃ e, c.extra = some e ∧ paramIn e raw ∧ ∃ t, TokArg TokP raw t ∧ atypeIn t e = true
+  | .strs k _ => ∃ c ∈ d.args, c.name = k ∧ ∃ e, c.extra = some e ∧ e.values = none ∧ atypeIn .stringlist e = true
   | _ => True
 
 inductive NodeT (TokP : Tok → Prop) (T : Table) : Node → Prop
@@ -78,10 +90,10 @@ theorem validType_of_mem (t : ArgType) (ts : List ArgType) (h : t ∈ ts) : vali
 theorem cna_slots (d : CmdDef) (ld : List Bytes) (st : CState) (t : ArgType) (v : AVal) (add ce : Bool)
     (st' : CState) (pl : Placement) (hcur : ∀ c, st.curarg = some c → c ∈ d.args)
     (h : checkNextArg d ld st t v add ce = .ok (some (st', pl))) :
-    (∀ x ∈ st'.arguments, x ∈ st.arguments ∨ (∃ a ∈ d.args, x = v.toArg a.name ∧ validType t a.types = true) ∨
+    (∀ x ∈ st'.arguments, x ∈ st.arguments ∨ (∃ a ∈ d.args, x = v.toArg a.name ∧ validType t a.types = true ∧ validValue a v ld ce = .ok true) ∨
         (∃ k ts n, v = .test n ∧ x = .tests k ts ∧ ∀ m ∈ ts, m = n ∨ ∃ k' ts', Arg.tests k' ts' ∈ st.arguments ∧ m ∈ ts')) ∧
     (∀ x ∈ st'.extraArgs, x ∈ st.extraArgs ∨
-        ∃ c ∈ d.args, ∃ e, c.extra = some e ∧ atypeIn t e = true ∧ x = v.toArg c.name) ∧
+        ∃ c ∈ d.args, ∃ e, c.extra = some e ∧ extraAccepts e t v = true ∧ x = v.toArg c.name) ∧
     (∀ c, st'.curarg = some c → c ∈ d.args) := by
   obtain ⟨_, hc⟩ := Safe.checkNextArg_cases d ld st t v add ce st' pl h
   rcases hc with ⟨c, e, hp, hacc, hst, _⟩ | ⟨_, hscan⟩
@@ -92,9 +104,7 @@ theorem cna_slots (d : CmdDef) (ld : List Bytes) (st : CState) (t : ArgType) (v 
     rcases Printable.mem_setArg add _ _ x hx with h1 | h1
     · exact Or.inl h1
     · right
-      refine ⟨c, hcur c hc1, e, hc2, ?_, h1⟩
-      simp only [extraAccepts, Bool.and_eq_true] at hacc
-      exact hacc.1
+      exact ⟨c, hcur c hc1, e, hc2, hacc, h1⟩
   · rcases Safe.scan_cases d.name ld ce add t v st _ _ st' pl hscan with ⟨h1, _, _⟩ | ⟨pre, a, post, hsplit, _, hit⟩
     · subst h1; exact ⟨fun x hx => Or.inl hx, fun x hx => Or.inl hx, hcur⟩
     · have ha : a ∈ d.args := List.mem_of_mem_drop (by rw [hsplit]; simp)
@@ -132,7 +142,7 @@ theorem cna_slots (d : CmdDef) (ld : List Bytes) (st : CState) (t : ArgType) (v 
             · right; right
               exact ⟨a.name, [n], n, rfl, h1, by intro m hm; simp at hm; exact Or.inl hm⟩
       | testlistSkip hr ht htt hadd hst hpl => subst hst; exact ⟨fun x hx => Or.inl hx, fun x hx => Or.inl hx, hcur⟩
-      | required hr ht hvt hres =>
+      | required hr ht hvt hres hval =>
         unfold takeRequired at hres
         simp only [Prod.mk.injEq] at hres
         rw [hres.1]
@@ -140,8 +150,8 @@ theorem cna_slots (d : CmdDef) (ld : List Bytes) (st : CState) (t : ArgType) (v 
         intro x hx
         rcases Printable.mem_setArg add _ _ x hx with h1 | h1
         · exact Or.inl h1
-        · exact Or.inr (Or.inl ⟨a, ha, h1, hvt⟩)
-      | optional hr ht hres =>
+        · exact Or.inr (Or.inl ⟨a, ha, h1, hvt, hval⟩)
+      | optional hr ht hres hval =>
         unfold takeOptional at hres
         split at hres
         · simp at hres
@@ -154,18 +164,62 @@ theorem cna_slots (d : CmdDef) (ld : List Bytes) (st : CState) (t : ArgType) (v 
             · intro x hx
               rcases Printable.mem_setArg add _ _ x hx with h1 | h1
               · exact Or.inl h1
-              · exact Or.inr (Or.inl ⟨a, ha, h1, validType_of_mem t a.types ht⟩)
+              · exact Or.inr (Or.inl ⟨a, ha, h1, validType_of_mem t a.types ht, hval⟩)
             · intro c hc
               simp only at hc
               split at hc
               · simp at hc; rw [← hc]; exact ha
               · exact hcur c hc
 
+theorem valueIn_of_valid (a : ArgDef) (raw : Bytes) (ld : List Bytes) (ce : Bool)
+    (h : validValue a (.str raw) ld ce = .ok true) : valueIn a raw := by
+  unfold validValue at h
+  by_cases h0 : (a.values.isNone && a.extValues.isEmpty) = true
+  · left; simpa using h0
+  · simp only [h0] at h
+    by_cases h1 : inValues a.values (B.lower raw) = true
+    · exact Or.inr (Or.inl h1)
+    · simp only [h1] at h
+      cases hl : extLookup a.extValues (B.lower raw) with
+      | none => rw [hl] at h; simp at h
+      | some e => exact Or.inr (Or.inr (by rw [hl]; rfl))
+
+theorem novalues_of_valid_list (a : ArgDef) (l : List Bytes) (ld : List Bytes) (ce : Bool)
+    (h : validValue a (.strs l) ld ce = .ok true) : a.values.isNone = true ∧ a.extValues.isEmpty = true := by
+  unfold validValue at h
+  by_cases h0 : (a.values.isNone && a.extValues.isEmpty) = true
+  · simpa using h0
+  · simp [h0] at h
+
+theorem paramIn_of_accepts (e : ExtraDef) (t : ArgType) (raw : Bytes) (h : extraAccepts e t (.str raw) = true) :
+    paramIn e raw ∧ atypeIn t e = true := by
+  simp only [extraAccepts, Bool.and_eq_true] at h
+  refine ⟨?_, h.1⟩
+  unfold paramIn
+  cases hv : e.values with
+  | none => trivial
+  | some vs =>
+    have := h.2
+    rw [hv] at this
+    simpa [valIn] using this
+
+theorem paramList_of_accepts (e : ExtraDef) (t : ArgType) (l : List Bytes) (h : extraAccepts e t (.strs l) = true) :
+    e.values = none ∧ atypeIn t e = true := by
+  simp only [extraAccepts, Bool.and_eq_true] at h
+  refine ⟨?_, h.1⟩
+  cases hv : e.values with
+  | none => rfl
+  | some vs =>
+    have := h.2
+    rw [hv] at this
+    simp [valIn] at this
+
 /-- the slots `reassign_arguments` moves a value between carry the same types -/
 def reassignOK (d : CmdDef) : Bool :=
   d.special != .hasflag ||
     (match d.args.find? (fun a => a.name == "variable-list"), d.args.find? (fun a => a.name == "list-of-flags") with
-     | some a, some b => a.types == b.types && d.args.all (fun x => x.name != "variable-list" || x.types == a.types)
+     | some a, some b => a.types == b.types && d.args.all (fun x => x.name != "variable-list" || x.types == a.types) &&
+         b.values.isNone && b.extValues.isEmpty
      | _, _ => false)
 
 def TableT (T : Table) : Prop := ∀ d ∈ T, reassignOK d = true
@@ -192,7 +246,7 @@ theorem closed {TokP : Tok → Prop} {T : Table} (hT : TableT T) :
     obtain ⟨h1, h2, h3⟩ := cna_slots f.d ld f.st .test _ true true st' pl hf.cur hcna
     refine ⟨⟨hf.named, h3, ?_, ?_, hf.kids⟩, FrameT.fresh d hn _, trivial⟩
     · intro x hx
-      rcases h1 x hx with h | ⟨a, _, rfl, _⟩ | ⟨k, ts, n, hv, rfl, hts⟩
+      rcases h1 x hx with h | ⟨a, _, rfl, _, _⟩ | ⟨k, ts, n, hv, rfl, hts⟩
       · exact hf.args x h
       · exact ⟨trivial, hph⟩
       · injection hv with hv
@@ -211,18 +265,20 @@ theorem closed {TokP : Tok → Prop} {T : Table} (hT : TableT T) :
     obtain ⟨h1, h2, h3⟩ := cna_slots f.d ld f.st t v true true st' pl hf.cur hcna
     refine ⟨hf.named, h3, ?_, ?_, hf.kids⟩
     · intro x hx
-      rcases h1 x hx with h | ⟨a, ha, rfl, hvt⟩ | ⟨k, ts, n, hv, _, _⟩
+      rcases h1 x hx with h | ⟨a, ha, rfl, hvt, hval⟩ | ⟨k, ts, n, hv, _, _⟩
       · exact hf.args x h
       · rcases hoff with ⟨tok, htok, rfl, hk⟩ | ⟨rfl, l, rfl⟩
-        · exact ⟨⟨a, ha, rfl, t, ⟨tok, htok, rfl, hk⟩, hvt⟩, trivial⟩
-        · exact ⟨⟨a, ha, rfl, hvt⟩, trivial⟩
+        · exact ⟨⟨a, ha, rfl, valueIn_of_valid a _ _ _ hval, t, ⟨tok, htok, rfl, hk⟩, hvt⟩, trivial⟩
+        · exact ⟨⟨a, ha, rfl, hvt, novalues_of_valid_list a l _ _ hval⟩, trivial⟩
       · rcases hoff with ⟨tok, _, hv', _⟩ | ⟨_, l, hv'⟩ <;> rw [hv'] at hv <;> cases hv
     · intro x hx
       rcases h2 x hx with h | ⟨c, hc, e, hce, hat, rfl⟩
       · exact hf.extra x h
       · rcases hoff with ⟨tok, htok, rfl, hk⟩ | ⟨rfl, l, rfl⟩
-        · exact ⟨⟨c, hc, rfl, e, hce, t, ⟨tok, htok, rfl, hk⟩, hat⟩, trivial⟩
-        · exact ⟨⟨c, hc, rfl, e, hce, hat⟩, trivial⟩
+        · obtain ⟨hp1, hp2⟩ := paramIn_of_accepts e t _ hat
+          exact ⟨⟨c, hc, rfl, e, hce, hp1, t, ⟨tok, htok, rfl, hk⟩, hp2⟩, trivial⟩
+        · obtain ⟨hp1, hp2⟩ := paramList_of_accepts e _ l hat
+          exact ⟨⟨c, hc, rfl, e, hce, hp1, hp2⟩, trivial⟩
   dry := by
     intro f ld v st' pl hf hcna
     -- nothing is stored when `add` is off; the pending slot stays a slot of the definition
@@ -329,18 +385,20 @@ theorem closed {TokP : Tok → Prop} {T : Table} (hT : TableT T) :
                 have hlfname : lf.name = "list-of-flags" := by
                   have := List.find?_some hl
                   simpa using this
+                obtain ⟨⟨⟨hro1, hro2⟩, hro3⟩, hro4⟩ := hro
                 have htypes : ∀ s ∈ f.d.args, s.name = a.key → s.types = lf.types := by
                   intro s hs hsn
-                  rcases hro.2 s hs with h1 | h1
+                  rcases hro2 s hs with h1 | h1
                   · exact absurd (hsn.trans hkey) h1
-                  · rw [h1, hro.1]
+                  · rw [h1, hro1]
+                have hfree : lf.values.isNone = true ∧ lf.extValues.isEmpty = true := ⟨by simpa using hro3, by simpa using hro4⟩
                 cases a with
                 | str k raw =>
-                  obtain ⟨s, hs, hsn, t, htok, hvt⟩ := ht
-                  exact ⟨lf, hlfmem, hlfname, t, htok, by rw [← htypes s hs hsn]; exact hvt⟩
+                  obtain ⟨s, hs, hsn, _, t, htok, hvt⟩ := ht
+                  exact ⟨lf, hlfmem, hlfname, Or.inl hfree, t, htok, by rw [← htypes s hs hsn]; exact hvt⟩
                 | strs k l =>
-                  obtain ⟨s, hs, hsn, hvt⟩ := ht
-                  exact ⟨lf, hlfmem, hlfname, by rw [← htypes s hs hsn]; exact hvt⟩
+                  obtain ⟨s, hs, hsn, hvt, _⟩ := ht
+                  exact ⟨lf, hlfmem, hlfname, by rw [← htypes s hs hsn]; exact hvt, hfree⟩
                 | test k n => trivial
                 | tests k l => trivial
       · simp at h
